@@ -33,6 +33,7 @@ func init() {
 			c09Run(c)
 		},
 		Replay: c09Replay,
+		Post:   schedPost,
 	}
 }
 
